@@ -362,6 +362,20 @@ def _classify_total(c, prog, ops):
            "codes reaching the unwrap without a table entry: %s; undecided %s; ordinary codes %d" % ([hex(x) for x in bad[:8]], undec[:2], n_ord), C.f.where(), C.f.path)
 
 
+def _scriptint_reader(c, prog):
+    """R9: what read_scriptint refuses. Builder::push_int/push_scriptint write any i64 through build_scriptint (at most 9 bytes);
+    the reader's only refusal is more than four bytes (NumericOverflow) — the decidable part of "integers pushed as script
+    numbers read back to the same value": no further rejection (a minimality or range test) stands between a written number
+    of at most four bytes and its value. The arithmetic of the two loops is not decided."""
+    from ..analysis import err_returns
+    f = prog.fn("script::read_scriptint")
+    errs = [(str(e[1]), [(d, l) for d, l in e[2]]) for e in err_returns(f.body)]
+    ok = (len(errs) == 1 and "NumericOverflow" in errs[0][0]
+          and any(d in ("(core::slice::len(arg1) Gt 4)", "(core::slice::len(arg1) Ge 5)") and l == "true" for d, l in errs[0][1])
+          and all("len(arg1)" in d for d, l in errs[0][1]))
+    c.inst("R9.scriptint-reader-refusals", "read_scriptint fails only for more than four bytes", ok, "error returns %s" % [(a[:60], b) for a, b in errs], f.where(), f.path)
+
+
 def run(c, prog, ctx):
     c.explanation = (
         "Static decision of the structural clauses of C16: (R1) the exact truth table of every template predicate over its own "
@@ -381,6 +395,7 @@ def run(c, prog, ctx):
     _ints_and_verify(c, prog, ops)
     _views(c, prog)
     _classify_total(c, prog, ops)
+    _scriptint_reader(c, prog)
     # last clause of the property — "its text form parses back to the same address" — is C06's subject: its rules (payload
     # layouts, program-length and padding tables of the blech32 reader, prefix matching, variant by version) are evaluated here too
     if not ctx.get("no_deps"):
